@@ -44,7 +44,8 @@ def confirm(spec, hist, clause, site):
             % (clause, site, hist, o1[0]))
 
 
-def run_configs(ctx, configs, nontrivial_keys, rule, assumptions):
+def run_configs(ctx, configs, nontrivial_keys, rule, assumptions,
+                spec_cls=None):
     """configs: list of (name, cfg, depth, max_dev).  Budget is split evenly;
     a config that hits its time cap reports the last complete depth."""
     cov = {'states': 0, 'transitions': 0, 'samples': [], 'caps_hit': [],
@@ -54,7 +55,7 @@ def run_configs(ctx, configs, nontrivial_keys, rule, assumptions):
     per_cfg_budget = ctx.budget_s / max(1, len(configs))
     impl_exc = 0
     for name, cfg, depth, max_dev in configs:
-        spec = CellSpec(cfg)
+        spec = (spec_cls or CellSpec)(cfg)
         res = statex.bfs(spec, depth, max_dev=max_dev, workers=ctx.workers,
                          time_cap=per_cfg_budget, progress=ctx.log)
         cov['states'] += res.states
@@ -88,8 +89,8 @@ def run_configs(ctx, configs, nontrivial_keys, rule, assumptions):
     cov['executions'] = cov['transitions']
     cov['traces_validated_against_impl'] = cov['transitions']
     cov['evaluations'] = cov['transitions']
-    nt = sum(cov['nontrivial_counters'].get(k, 0) for k in nontrivial_keys)
-    cov['distinct_nontrivial'] = nt
+    cov['distinct_nontrivial'] = cov['nontrivial_counters'].get(
+        nontrivial_keys[0], 0)
     cov['rule'] = rule
     cov['impl_exceptions'] = impl_exc
     # vacuity guard: a run in which the antecedent never fired proves nothing
@@ -100,9 +101,9 @@ def run_configs(ctx, configs, nontrivial_keys, rule, assumptions):
             'assumptions': assumptions}
 
 
-def replay_config(ctx, configs, data):
+def replay_config(ctx, configs, data, spec_cls=None):
     cfgs = {name: cfg for name, cfg, _d, _m in configs}
-    spec = CellSpec(cfgs[data['config']])
+    spec = (spec_cls or CellSpec)(cfgs[data['config']])
     hist = [tuple(e) for e in data['history']]
     w = statex.build(spec, hist)
     seen = {}
